@@ -36,12 +36,12 @@ theorem isRoot_focus (w : Work g R fs c vc K n v) (hfs : fs ≠ []) : g.isRoot c
       apply w.cF
       simp [frameHandles, e]
     have h2 : (HTree.node n v []).handle = n := rfl
-    have h3 : (plug (a :: fs') (.node c vc K)).handle = a.h := rfl
+    have h3 : (fcPlug (a :: fs') (.node c vc K)).handle = a.h := rfl
     simp only [List.any_append, any_handle_eq_false_of_not_mem c R w.cR, List.any_cons, h2, h3,
       List.any_nil, Bool.or_false, Bool.false_or, h1, w.nc, decide_false]
 
 theorem spliceOut_n (w : Work g R fs c vc K n v) :
-    g.spliceOut n = g.withRoots (R ++ [plug fs (.node c vc K)]) := by
+    g.spliceOut n = g.withRoots (R ++ [fcPlug fs (.node c vc K)]) := by
   unfold Forest.spliceOut
   rw [w.get?_n]
   simp only [w.isRoot_n, if_true, HTree.kids, List.length_nil, Nat.zero_le, List.append_nil]
@@ -53,24 +53,24 @@ theorem spliceOut_n (w : Work g R fs c vc K n v) :
 theorem setValue_last {K' : List HTree} {m : Nat} {vm : Value} {mk : List HTree}
     (w : Work g R fs c vc (K' ++ [.node m vm mk]) n v) (val : Value) :
     g.setValue m val =
-      g.withRoots (R ++ [plug fs (.node c vc (K' ++ [.node m val mk])), .node n v []]) := by
+      g.withRoots (R ++ [fcPlug fs (.node c vc (K' ++ [.node m val mk])), .node n v []]) := by
   have w' := w.descend
   unfold Forest.setValue
   rw [w.roots]
   simp only [List.map_append, List.map_cons, List.map_nil]
   rw [map_mapAt_of_not_mem m _ R w'.cR]
-  have e1 : plug fs (.node c vc (K' ++ [.node m vm mk])) = plug (fs ++ [⟨c, vc, K'⟩]) (.node m vm mk) := by
-    rw [plug_append]
-  rw [e1, mapAt_plug m _ _ _ w'.cF, mapAt_self, plug_append]
+  have e1 : fcPlug fs (.node c vc (K' ++ [.node m vm mk])) = fcPlug (fs ++ [⟨c, vc, K'⟩]) (.node m vm mk) := by
+    rw [fcPlug_append]
+  rw [e1, mapAt_plug m _ _ _ w'.cF, mapAt_self, fcPlug_append]
   have e2 : mapAt m (HTree.setValue val) (.node n v []) = .node n v [] :=
-    mapAt_of_not_mem m _ _ (by simp [handles, handlesList, Ne.symm w'.nc])
+    fc_mapAt_of_not_mem m _ _ (by simp [handles, handlesList, Ne.symm w'.nc])
   rw [e2]
   rfl
 
 /-- The work state after the value of the last child changed. -/
 theorem reval_last {K' : List HTree} {m : Nat} {vm : Value} {mk : List HTree}
     (w : Work g R fs c vc (K' ++ [.node m vm mk]) n v) (val : Value) :
-    Work (g.withRoots (R ++ [plug fs (.node c vc (K' ++ [.node m val mk])), .node n v []]))
+    Work (g.withRoots (R ++ [fcPlug fs (.node c vc (K' ++ [.node m val mk])), .node n v []]))
       R fs c vc (K' ++ [.node m val mk]) n v := by
   have e : handlesList (K' ++ [.node m val mk]) = handlesList (K' ++ [.node m vm mk]) := by
     simp [handlesList_append, handlesList, handles]
@@ -83,7 +83,7 @@ theorem append_merge {K' : List HTree} {m : Nat} {ps s : Str} {mk : List HTree}
     (w : Work g R fs c vc (K' ++ [.node m (.text ps) mk]) n (.text s))
     (hvc : vc.isElement = true ∨ vc.isDocument = true) (hc : g.consolidation = true) :
     g.append c n =
-      (g.withRoots (R ++ [plug fs (.node c vc (K' ++ [.node m (.text (ps ++ s)) mk]))]), .ok) := by
+      (g.withRoots (R ++ [fcPlug fs (.node c vc (K' ++ [.node m (.text (ps ++ s)) mk]))]), .ok) := by
   unfold Forest.append
   have h1 : g.lastChild c = some m := by
     rw [w.lastChild_snoc]; simp [HTree.value, HTree.handle, Value.isNormal, Value.category]
@@ -92,7 +92,7 @@ theorem append_merge {K' : List HTree} {m : Nat} {ps s : Str} {mk : List HTree}
     simpa [HTree.handle, HTree.value] using this
   have h3 : g.textOf n = some s := by rw [w.textOf_n]
   have h4 : g.addConsolidate n (some m) none =
-      (g.withRoots (R ++ [plug fs (.node c vc (K' ++ [.node m (.text (ps ++ s)) mk]))]), true) := by
+      (g.withRoots (R ++ [fcPlug fs (.node c vc (K' ++ [.node m (.text (ps ++ s)) mk]))]), true) := by
     rw [Forest.addConsolidate_eq_old_of_ne (by simpa using Ne.symm w.descend.nc) (by simp)]
     unfold Forest.addConsolidateOld
     simp only [hc, Bool.not_true, Bool.false_eq_true, if_false, h3, h2]
@@ -107,7 +107,7 @@ theorem append_merge {K' : List HTree} {m : Nat} {ps s : Str} {mk : List HTree}
 /-! #### namespace / attribute nodes -/
 
 theorem checkedPrepend_fresh (w : Work g R fs c vc K n v) :
-    g.checkedPrepend c n = (g.withRoots (R ++ [plug fs (.node c vc (.node n v [] :: K))]), true) := by
+    g.checkedPrepend c n = (g.withRoots (R ++ [fcPlug fs (.node c vc (.node n v [] :: K))]), true) := by
   unfold Forest.checkedPrepend
   have h1 : (c = n) = False := by simp [Ne.symm w.nc]
   simp only [h1, w.not_anc, decide_false, Bool.or_false, Bool.false_eq_true, if_false, w.cut_n]
@@ -115,7 +115,7 @@ theorem checkedPrepend_fresh (w : Work g R fs c vc K n v) :
 
 theorem checkedInsertAfter_last {K' : List HTree} {x : HTree} (w : Work g R fs c vc (K' ++ [x]) n v) :
     g.checkedInsertAfter x.handle n =
-      (g.withRoots (R ++ [plug fs (.node c vc (K' ++ [x, .node n v []]))]), true) := by
+      (g.withRoots (R ++ [fcPlug fs (.node c vc (K' ++ [x, .node n v []]))]), true) := by
   cases x with
   | node m vm mk =>
     have w' := w.descend
@@ -134,7 +134,7 @@ theorem checkedInsertAfter_last {K' : List HTree} {x : HTree} (w : Work g R fs c
 /-- Entry nodes always land at the end of what has been copied so far. -/
 theorem mapPlace_fresh (w : Work g R fs c vc K n v) (k : Forest.MapKind)
     (hip : g.mapInsertionPoint k c = K.getLast?.map (·.handle)) :
-    g.mapPlace k c n = (g.withRoots (R ++ [plug fs (.node c vc (K ++ [.node n v []]))]), .ok) := by
+    g.mapPlace k c n = (g.withRoots (R ++ [fcPlug fs (.node c vc (K ++ [.node n v []]))]), .ok) := by
   unfold Forest.mapPlace
   rw [hip]
   rcases List.eq_nil_or_concat K with rfl | ⟨K', x, rfl⟩
@@ -147,7 +147,7 @@ theorem mapInsertNode_fresh (w : Work g R fs c vc K n v) (k : Forest.MapKind)
     (hget : g.mapGetNode k c (Forest.entryKey v) = none)
     (hip : g.mapInsertionPoint k c = K.getLast?.map (·.handle)) :
     g.mapInsertNode k c n =
-      (g.withRoots (R ++ [plug fs (.node c vc (K ++ [.node n v []]))]), .ok, n) := by
+      (g.withRoots (R ++ [fcPlug fs (.node c vc (K ++ [.node n v []]))]), .ok, n) := by
   unfold Forest.mapInsertNode
   simp [w.value?_n, hm, hget, w.mapPlace_fresh k hip]
 
@@ -156,7 +156,7 @@ theorem appendEntryNode_fresh (w : Work g R fs c vc K n v) (k : Forest.MapKind)
     (hget : g.mapGetNode k c (Forest.entryKey v) = none)
     (hip : g.mapInsertionPoint k c = K.getLast?.map (·.handle)) :
     g.appendEntryNode k c n =
-      (g.withRoots (R ++ [plug fs (.node c vc (K ++ [.node n v []]))]), .ok, n) := by
+      (g.withRoots (R ++ [fcPlug fs (.node c vc (K ++ [.node n v []]))]), .ok, n) := by
   unfold Forest.appendEntryNode
   simp [w.isElement_c, hvc, w.value?_n, hm, w.mapInsertNode_fresh k hm hget hip]
 
